@@ -16,7 +16,7 @@ COMPONENTS = ["producer"]
 MONITORS = {
     "C01": ["c01-once", "c01-acked", "c01-acks0", "c01-payloads", "c01-resolved"],
     "C09": ["c09-order", "c09-onebatch", "c09-retry", "c09-attempts", "c09-geometric"],
-    "C19": ["c19-accounting", "c19-dispatch", "c19-cancel", "c19-stop"],
+    "C19": ["c19-accounting", "c19-dispatch", "c19-cancel", "c19-detach", "c19-stop"],
 }
 WHAT = {
     "c01-once": "a send Deferred fired more than once",
@@ -32,6 +32,7 @@ WHAT = {
     "c19-accounting": "waiting message/byte counters differ from the sums over the queue",
     "c19-dispatch": "dispatch did not happen exactly when the thresholds/tick and the in-flight state demand",
     "c19-cancel": "cancel of a queued send did not remove it / cancel of a dispatched send did more than detach",
+    "c19-detach": "after a send was cancelled late (after dispatch) a batch resolved while another of its sends had not fired: the cancel did more than detach its caller",
     "c19-stop": "stop() left a send outstanding, failed it with a non-cancellation error, or something was transmitted in/after stop()",
 }
 CORPUS = os.path.join(core.VERIF, "corpus", "producer")
@@ -284,8 +285,10 @@ def exhaustive(pid, cfg, depth, nsend, prefix_choices, tally, cap=None):
     """DFS over all option sequences of length `depth` that start with `prefix_choices` (indices)"""
     batch = []
 
+    run_cfg = {k: v for k, v in cfg.items() if k != "meta_ready"}
+
     def run_prefix(events):
-        real = D.RealRun(cfg)
+        real = D.RealRun(run_cfg)
         for ev in events:
             real.apply(ev)
         return real
@@ -294,7 +297,7 @@ def exhaustive(pid, cfg, depth, nsend, prefix_choices, tally, cap=None):
         real = run_prefix(events)
         opts = exh_options(real, events, nsend)
         if d == 0 or not opts:
-            batch.append(({"cfg": cfg, "events": events}, real))
+            batch.append(({"cfg": run_cfg, "events": events}, real))
             if len(batch) >= 400:
                 check_batch(pid, batch, tally)
                 del batch[:]
@@ -320,7 +323,9 @@ def _exh_worker(args):
     if repo not in sys.path:
         sys.path.insert(0, repo)
     t = Tally()
-    cfg = dict(EXH_CFGS[ci])
+    cfg = dict(EXH_CFGS[ci % 100])
+    if ci >= 100:
+        cfg["meta_ready"] = False
     exhaustive(pid, cfg, depth, nsend, first, t)
     t.hist["exhaustive-sequences"] += t.evaluations
     return t
@@ -384,6 +389,8 @@ def scripted(ctx, res, pid, n_quick, n_thorough):
             # bounded-exhaustive: all sequences of 7 choices over the small alphabet, <= 3 sends, with and
             # without metadata in place; sharded by configuration and first two choices
             jobs = [(pid, ci, [a, b], 7, 3, core.REPO) for ci in range(len(EXH_CFGS)) for a in range(3) for b in range(6)]
+            # ... and without metadata in place (look-ups, back-off), depth 6
+            jobs += [(pid, ci + 100, [a], 6, 2, core.REPO) for ci in range(len(EXH_CFGS)) for a in range(4)]
             for t in pool.map(_exh_worker, jobs, chunksize=1):
                 merge(res, t)
     else:
@@ -393,7 +400,7 @@ def scripted(ctx, res, pid, n_quick, n_thorough):
 
 
 def run(ctx, res, pid):
-    scripted(ctx, res, pid, n_quick=6000, n_thorough=96000)
+    scripted(ctx, res, pid, n_quick=6000, n_thorough=240000)
     try:
         from harness.lib import producer_fullstack as FS
     except ImportError:
